@@ -142,14 +142,18 @@ func (dec *Decoder) applyInverseTransforms(pixels []uint32) []uint32 {
 	for n := dec.nextTransform - 1; n >= 0; n-- {
 		t := &dec.transforms[n]
 		inverseTransform(t, 0, t.YSize, rows, out)
-		rows = out
+		// Ping-pong between the two buffers. Running a later transform in
+		// place (rows == out) is wrong for a packed colour-indexing
+		// transform: expanding sub-byte indices overwrites packed input
+		// that has not been read yet.
+		rows, out = out, rows
 	}
 
 	if dec.nextTransform == 0 {
 		// No transforms: output is the original pixels.
 		return pixels
 	}
-	return out[:numPix]
+	return rows[:numPix]
 }
 
 // inverseTransform applies a single inverse transform to the pixel data.
